@@ -75,6 +75,7 @@ def run(chk):
     # real generator calls (intercepted), side conditions of genBlock_spec / quadLoop_spec evaluated per real block
     chk.lean(codegen_checks.CODEGEN_MODULE, codegen_checks.CODEGEN_THEOREMS, extra_files=codegen_checks.CODEGEN_FILES)
     chk.lean(codegen_checks.PARTITION_MODULE, codegen_checks.PARTITION_THEOREMS, extra_files=codegen_checks.PARTITION_FILES)
+    chk.lean(codegen_checks.DEFS_MODULE, codegen_checks.DEFS_THEOREMS, extra_files=codegen_checks.DEFS_FILES)
     with lean.Driver("driver_codegen") as d:
         codegen_checks.check_blocks(chk, d, ir_ents + codegen_checks.extra_entries())
         codegen_checks.check_synthetic(chk, d, chk.seed, 400 if chk.tier == "quick" else 5000)
